@@ -375,7 +375,7 @@ func genAggSigCase(r *Rand, idx int, tier string) []string {
 	}
 	signers := append([]int(nil), perm[:k]...)
 	sort.Ints(signers)
-	switch r.Intn(14) {
+	switch r.Intn(20) {
 	case 0: // unsorted
 		if k >= 2 {
 			i := r.Intn(k - 1)
@@ -401,7 +401,7 @@ func genAggSigCase(r *Rand, idx int, tier string) []string {
 			ps = append(ps, randScalar(r).String())
 		}
 	}
-	switch r.Intn(16) {
+	switch r.Intn(24) {
 	case 0: // a private key that is not the signer's
 		if len(ps) > 0 {
 			ps[r.Intn(len(ps))] = randScalar(r).String()
@@ -428,7 +428,7 @@ func genAggSigCase(r *Rand, idx int, tier string) []string {
 	if len(ps) > 0 {
 		pstr = strings.Join(ps, ",")
 	}
-	seedLen := Pick(r, []int{32, 32, 32, 33, 64, 100, 31, 0, 1})
+	seedLen := Pick(r, []int{32, 32, 32, 32, 32, 32, 33, 48, 64, 100, 31, 0, 1})
 	msg := Hex(r.Bytes(32))
 	emit("transcript " + intsTok(signers))
 	sres := emit(fmt.Sprintf("sign %s %s %s %s", intsTok(signers), pstr, Hex(r.Bytes(seedLen)), msg))
